@@ -340,3 +340,19 @@ for _k, _t in (("int", "Int"), ("arr", "List K")):
          ret="List Int", subst=_SH_SELF,
          doc=f"`swcgeom/analysis/sholl.py::Sholl.get` for `steps : {_t}` (`self.rs` / `self.rmax` / `self.step` are the parameters)")
     SH_CALLS[f"sholl_get_{_k}"] = {"self._get_rs(steps=steps)": (f"sholl_get_rs_self_{_k}", ["self.rmax", "self.step", "steps"])}
+
+# ---- the front end: one zero-padded row per tree (Population), one block per population (Populations); the per-tree vectors are DATA
+_FE = "swcgeom/analysis/feature_extractor.py"
+spec(lean="population_get_impl", module="AlgoFeatFront", file=_FE, cls="PopulationFeatureExtractor", func="_get_impl",
+     params=["vals"], num_tparams=["K"], vars={"vals": "List (List K)", "len_max": "Int", "v": "List (List K)"}, ret="List (List K)",
+     skip_stmts=["vals = [f.get(feature, **kwargs) for f in self._features]"],
+     doc="`swcgeom/analysis/feature_extractor.py::PopulationFeatureExtractor._get_impl` (the per-tree value vectors "
+         "`[f.get(feature, **kwargs) for f in self._features]` are the parameter `vals`)")
+spec(lean="populations_get_impl", module="AlgoFeatFront", file=_FE, cls="PopulationsFeatureExtractor", func="_get_impl",
+     params=["vals"], num_tparams=["K"],
+     vars={"vals": "List (List (List K))", "len_max1": "Int", "len_max2": "Int", "out": "List (List (List K))", "i": "Int", "j": "Int",
+           "v": "List (List K)", "vv": "List K"},
+     ret="List (List (List K))",
+     skip_stmts=["vals = [[f.get(feature, **kwargs) for f in fs] for fs in self._features]"],
+     doc="`swcgeom/analysis/feature_extractor.py::PopulationsFeatureExtractor._get_impl` (the per-tree value vectors "
+         "`[[f.get(feature, **kwargs) for f in fs] for fs in self._features]` are the parameter `vals`)")
